@@ -350,26 +350,31 @@ returned, the messages as they are -/
 def backFiles (fits : List DecApi.Fit) : List FileIn :=
   fits.map fun f => { hsize := f.hdr.size, hpv := f.hdr.protoVer, hprofile := f.hdr.profileVer, msgs := f.msgs.map ofDecoded }
 
+/-- the fields of a decoded message that validation retains: all of them AS THEY ARE, in order, except — when the validator
+omits invalid values (`omitInv`, the default) — those whose value is invalid for the field's base type (`Value.Valid`: the
+invalid sentinel, an array of sentinels, an empty string, …); fields created by component expansion are never written -/
+def keptFields (omitInv : Bool) (m : DecApi.Msg) : List Field :=
+  (ofDecoded m).fields.filter fun f =>
+    match f.base with
+    | some b => !f.isExpanded && (!omitInv || valid f.value b.baseType)
+    | none => false
+
 /-- **what message validation retains of decoded messages** (the reading of "those same messages" in the last sentence of
 the property), stated without the validator's loops: every message with every field and developer field AS IT IS, in
-order, except the invalid-valued ones when the validator omits invalid values (`omitInv`, the default) — a field whose
-value is invalid for its base type (`Value.Valid`: the invalid sentinel, an array of sentinels, an empty string, …), a
-developer field whose value is invalid for the base type of the FIRST field description of (developer data index, number)
-among the retained `field_description` messages so far (the message itself included). Nothing is restored or converted. -/
+order, except the invalid-valued ones when the validator omits invalid values — a field whose value is invalid for its
+base type (`keptFields`), a developer field whose value is invalid for the base type of the FIRST field description of
+(developer data index, number) among the retained `field_description` messages so far (the message itself included).
+Nothing is restored or converted. -/
 def retained (omitInv : Bool) : Validator.State → List DecApi.Msg → List Message
   | _, [] => []
   | vst, m :: ms =>
-    let km := ofDecoded m
-    let fs := km.fields.filter fun f =>
-      match f.base with
-      | some b => !f.isExpanded && (!omitInv || valid f.value b.baseType)
-      | none => false
+    let fs := keptFields omitInv m
     let vst' := Validator.remember vst m.num fs
-    let ds := km.devFields.filter fun d =>
+    let ds := (ofDecoded m).devFields.filter fun d =>
       match Validator.lookupFd vst'.fds d with
       | some fd => !omitInv || valid d.value fd.btId
       | none => true
-    { km with fields := fs, devFields := ds } :: retained omitInv vst' ms
+    { num := m.num, fields := fs, devFields := ds } :: retained omitInv vst' ms
 
 /-- a validated message taken literally: numbers, base types of the `FieldBase`s, values as they are -/
 def literal (m : Message) : NMsg :=
@@ -477,10 +482,9 @@ decoder returned the raw value: what is written, and comes back, is another numb
 def kfF64Dev (vo : Validator.Options) : Validator.State → List DecApi.Msg → Bool
   | _, [] => false
   | vst, m :: ms =>
-    let kept := (retained vo.omitInvalid vst [m]).headD { num := m.num, fields := [], devFields := [] }
-    let vst' := Validator.remember vst m.num kept.fields
-    (m.devs.any fun d => f64Typed d.value &&
-      (match Validator.lookupFd vst'.fds ⟨d.idx, d.num, d.value⟩ with
+    let vst' := Validator.remember vst m.num (keptFields vo.omitInvalid m)
+    ((ofDecoded m).devFields.any fun d => f64Typed d.value &&
+      (match Validator.lookupFd vst'.fds d with
        | some fd => restoreApplies vo fd
        | none => false)) || kfF64Dev vo vst' ms
 
